@@ -74,6 +74,7 @@ class ShareMonitor:
         self.o = (asyncoro.Task, asyncoro._reconcile, asyncoro._ProgramCounterWrapper, thresha.random_split,
                   rtmod.Runtime._randoms, rtmod.Runtime._np_randoms, thresha.PRF.__init__, rtmod.Runtime.output)
         o_task, o_rec, o_wrap, o_split, o_randoms, o_nprandoms, o_prf, o_output = self.o
+        o_zero, o_npzero = self.o2 = (thresha.pseudorandom_share_zero, thresha.np_pseudorandom_share_0)
 
         class Wrapper(o_wrap):
             __slots__ = ()
@@ -168,7 +169,8 @@ class ShareMonitor:
             try:
                 xs = x if isinstance(x, list) else [x]
                 if all(not hasattr(e, 'share') or not isinstance(e.share, asyncio.Future) for e in xs):
-                    mon.events[rt.pid].append(['open', origin, threshold, _ints(xs)])
+                    nvals = sum(int(getattr(getattr(e, 'value', None), 'size', 1)) for e in xs)
+                    mon.events[rt.pid].append(['open', origin, threshold, _ints(xs), id(sys._getframe(1)), nvals])
             except Exception:
                 pass
             fut = o_output(rt, x, receivers, threshold, raw)
@@ -194,6 +196,18 @@ class ShareMonitor:
                 fut.add_done_callback(log)
             return fut
 
+        def share_zero(field, m, i, prfs, uci, n):
+            fr = sys._getframe(1)
+            mon.events[i].append(['zero', fr.f_code.co_name, n, id(fr)])
+            return o_zero(field, m, i, prfs, uci, n)
+
+        def np_share_zero(field, m, i, prfs, uci, n):
+            fr = sys._getframe(1)
+            mon.events[i].append(['zero', fr.f_code.co_name, n, id(fr)])
+            return o_npzero(field, m, i, prfs, uci, n)
+
+        thresha.pseudorandom_share_zero = share_zero
+        thresha.np_pseudorandom_share_0 = np_share_zero
         rtmod.Runtime.output = output
         asyncoro._ProgramCounterWrapper = Wrapper
         asyncoro.Task = Task
@@ -210,6 +224,7 @@ class ShareMonitor:
     def __exit__(self, *exc):
         (asyncoro.Task, asyncoro._reconcile, asyncoro._ProgramCounterWrapper, thresha.random_split,
          rtmod.Runtime._randoms, rtmod.Runtime._np_randoms, thresha.PRF.__init__, rtmod.Runtime.output) = self.o
+        thresha.pseudorandom_share_zero, thresha.np_pseudorandom_share_0 = self.o2
         SECRETS.log = self._log_was
         return False
 
